@@ -10,10 +10,20 @@ import Glom.Generated.MutFacts
 namespace Glom.Mut
 open Glom
 
-def genEnv (userClasses : ClassTable) (flags : List (String × List String)) : MEnv :=
-  { t := C01.genEnv userClasses
-    assignReg := Generated.defaultReg_assign
-    deleteReg := Generated.defaultReg_delete
+/-- registrations a user made on the registry before the call (`Glommer().register(cls, get=…,
+    assign=…, delete=…)`): per op, class ↦ handler name (`"False"`: registered as unsupported; a name
+    the model does not know — a handler of the user's own — raises NotImplementedError).  A later
+    registration of a class replaces the earlier one: the tables are searched front to back. -/
+structure UReg where
+  get : List (String × String) := []
+  assign : List (String × String) := []
+  delete : List (String × String) := []
+  deriving Repr
+
+def genEnv (userClasses : ClassTable) (flags : List (String × List String)) (ur : UReg := {}) : MEnv :=
+  { t := { C01.genEnv userClasses with getReg := ur.get ++ (C01.genEnv userClasses).getReg }
+    assignReg := ur.assign ++ Generated.defaultReg_assign
+    deleteReg := ur.delete ++ Generated.defaultReg_delete
     assignBr := Generated.assignOpBranches
     delBr := Generated.delOneBranches
     flags := flags }
